@@ -13,8 +13,9 @@
 (*           else on one); NTriple seeded triples.  Probe request,         *)
 (*           shape of the mutating request and tracing on/off rotate with  *)
 (*           the index and the seed.                                       *)
-(*   Request/Response/URI/Cookie/Args  every single mutator, ordered pairs *)
-(*           (1/SPairMod sample), then Release / Acquire / look            *)
+(*   Request/Response/URI/Cookie/Args  every single mutator (x the three   *)
+(*           setter programs), ordered pairs (1/SPairMod sample), then     *)
+(*           Release / Acquire / look / apply the setter program / look    *)
 (*   conc    NConc cases per idle mode: Conns goroutines x Rounds          *)
 (*           connections [mutate, probe, mutate, probe] on one engine      *)
 (* Seed = IOEnv.VERIF_SEED.                                                *)
@@ -29,17 +30,20 @@ Modes   == <<"same", "next", "other">>
 Endings == <<"return", "abort", "panic">>
 Probes  == <<"min", "rich">>
 Shapes  == <<"get", "form", "multipart", "chunked">>
+\* setter program the probe applies (reuse.go): after its first look, or ("!") instead of it, before any getter ran
+Setvs   == <<"bytes", "string", "copy", "bytes!", "string!", "copy!">>
 
 MSeq == [k \in Kinds |-> SetToSeq(MutsOf(k))]
 N(k) == Len(MSeq[k])
 
 Blank == [id |-> 0, kind |-> "", obj |-> "", muts |-> << >>, mode |-> "", ending |-> "", probe |-> "", shape |-> "",
-          trace |-> FALSE, conns |-> 0, rounds |-> 0, idle |-> ""]
+          trace |-> FALSE, conns |-> 0, rounds |-> 0, idle |-> "", setv |-> ""]
 
 \* rotating parameters of a context history: x runs through all 3*3*2*4*2 combinations as it grows
 CtxCase(muts, mode, ending, x) ==
   [Blank EXCEPT !.kind = "Ctx", !.muts = muts, !.mode = mode, !.ending = ending,
-                !.probe = Probes[(x % 2) + 1], !.shape = Shapes[((x \div 2) % 4) + 1], !.trace = ((x \div 8) % 2) = 1]
+                !.probe = Probes[(x % 2) + 1], !.shape = Shapes[((x \div 2) % 4) + 1], !.trace = ((x \div 8) % 2) = 1,
+                !.setv = Setvs[((x + (x \div 16)) % 6) + 1]]
 CtxCaseX(muts, x) == CtxCase(muts, Modes[(x % 3) + 1], Endings[((x \div 3) % 3) + 1], x \div 9)
 
 Cover == << [Blank EXCEPT !.kind = "cover"] >>
@@ -72,8 +76,9 @@ CtxTriples ==
      IN  CtxCaseX(<<MSeq["Ctx"][(a % n) + 1], MSeq["Ctx"][(b % n) + 1], MSeq["Ctx"][(c % n) + 1]>>, a + b + c)]
 
 Standalone(k) ==
-  SetToSeq({[Blank EXCEPT !.kind = k, !.muts = <<MSeq[k][i]>>] : i \in 1 .. N(k)})
-  \o SetToSeq({[Blank EXCEPT !.kind = k, !.muts = <<MSeq[k][p[1]], MSeq[k][p[2]]>>] : p \in PairIdx(N(k), IF N(k) <= 40 THEN 1 ELSE SPairMod)})
+  SetToSeq({[Blank EXCEPT !.kind = k, !.muts = <<MSeq[k][i]>>, !.setv = Setvs[v]] : i \in 1 .. N(k), v \in 1 .. 6})
+  \o SetToSeq({[Blank EXCEPT !.kind = k, !.muts = <<MSeq[k][p[1]], MSeq[k][p[2]]>>, !.setv = Setvs[((p[1] + p[2] + Seed) % 6) + 1]] :
+               p \in PairIdx(N(k), IF N(k) <= 40 THEN 1 ELSE SPairMod)})
 
 Rotate(s, r) == [i \in 1 .. Len(s) |-> s[((i + r - 1) % Len(s)) + 1]]
 ConcCases ==
